@@ -42,7 +42,9 @@ static void handle(int argc, char **argv) {
     }
     if (argc >= 3 && strcmp(argv[1], "v") == 0) {
         int pos = 2, rc;
-        cif_value_tp *v = build_value(argv, argc, &pos, &rc), *back = NULL;
+        cif_value_tp *v, *back = NULL;
+        while (pos < argc && argv[pos][0] == '@') pos++;       /* key normalisation pairs: for the model only */
+        v = build_value(argv, argc, &pos, &rc);
         buffer_tp *buf = NULL;
         if (v == NULL || pos != argc) { if (v) cif_value_free(v); OUT("bad-op"); return; }
         rc = cif_value_serialize(v, &buf);
